@@ -460,6 +460,11 @@ def run_check(prop, tier, seed, workers, replay=None, budget=None, extra=None):
         for j, r in executed:
             for f in r.get("failures", []):
                 groups.setdefault(sig(f), []).append((j, r, f))
+        cross_pairs = 0
+        if hasattr(mod, "cross_check"):  # parent-side comparison across interpreters (hash seeds)
+            extra, cross_pairs = mod.cross_check(executed)
+            for j, r, f in extra:
+                groups.setdefault(sig(f), []).append((j, r, f))
         violations = []
         known_hits = {}
         if os.environ.get("VERIF_LIST_ONLY"):  # development aid: list failure groups, no shrinking
@@ -504,6 +509,8 @@ def run_check(prop, tier, seed, workers, replay=None, budget=None, extra=None):
 
         # ---------------- evidence
         ev = build_evidence(prop, tier, seed, plan, jobs, results, executed, skipped, violations, known_hits, harness_errors, time.monotonic() - t_start, nworkers)
+        if cross_pairs:
+            ev["coverage"]["schedules_compared_across_hash_seeds"] = cross_pairs
         if hasattr(mod, "evidence_extra"):
             try:
                 mod.evidence_extra(ev, executed)
